@@ -43,6 +43,14 @@ LEVEL_TEXT += (
     " Added after the seeding phase: (R5) no product of two size-dependent "
     "index quantities in the int32 arithmetic of the connectivity tables "
     "without widening.")
+LEVEL_TEXT += (
+    " Added in the hunting round (defects found by independent agents "
+    "on the unchanged tree, DESIGN.md 9.4 / 9.6): "
+    "complements are taken among the vertices, not the stored points; "
+    "quadrilateral facets are stored unsorted where boundary_edges "
+    "pairs consecutive rows; padded facets are one facet whichever "
+    "vertex is repeated (exact interpretation of build_entities); p2f "
+    "holds 0 and 1.")
 LEVEL_NOTE = ("Trusted: numpy unique/hstack/reshape/tile/flatten/sort "
               "semantics; scipy coo_matrix((data, (row, col))).")
 EXPLANATION = "Layout-typed symbolic runs + exact polytope audit."
